@@ -8,7 +8,13 @@
   (every function returns the new container).  Since the `fix:` commit "a failed single-document
   update restores the document" an exception leaves no partial state, so an error simply aborts.
 
-  Outside F (`unmodelled`): the positional operator `$` in paths and `array_filters`, negative
+  The positional operator `$` of update paths is modelled (section "the positional operator `$`"
+  below: `applyOpsPos`, taken by `applyUpdate` as soon as an operator document holds a key with a
+  `$` in it; the plain loop `applyOps` and its per-operator functions are untouched and still
+  answer `unmodelled` for such keys).
+
+  Outside F (`unmodelled`): `array_filters` (refused by the callers: NotImplementedError), the
+  corners of the positional operator listed in that section, negative
   array indexes (Python negative indexing), `$each`/`$pullAll`/`$sort` operands of non-list type,
   `$push.$sort` over values Python cannot order natively or of mixed classes, some
   type-confused targets (`$addToSet` into a string or sub-document), `$currentDate` of type
